@@ -49,12 +49,14 @@ static DecRes real_dec(int T, const bytes &key, const bytes &file, bool with_out
 }
 static DecRes real_ver(int T, const bytes &key, const bytes &file) {
   trace_case("file", "verify T=" + S(T) + " B=" + S(BSZ) + " H=" + S(HB) + " key=" + hex(key) + " file=" + hex(file));
-  MemFile in(file);
+  MemFile in(file), vout;
   FILE *fi = in.openr();
+  FILE *fov = (g_echo_toggle % 2) ? vout.openw() : NULL;      // every other verification is given an output handle (as `-v -o F` does): it must stay empty
   unsigned char *k = g_keybuf; memcpy(k, key.data(), 16);
   Settings st((char)-1, (char)-1, (++g_echo_toggle % 3) != 0);
   DecRes r;
-  { runcrypt rc(fi, NULL, k, st, (u8_t)T); r.ok = rc.execute_verify(file.size()); }
+  { runcrypt rc(fi, fov, k, st, (u8_t)T); r.ok = rc.execute_verify(file.size()); }
+  if (fov && !vout.contents().empty()) emitA("file", "C12", "verification wrote " + S((long)vout.contents().size()) + " bytes to the output handle it was given T=" + S(T) + " key=" + hex(key) + " file=" + hex(file));
   r.input_intact = in.contents() == file;
   return r;
 }
@@ -141,6 +143,12 @@ static void suite_ivs(Rng &rng) {
       seen[ks] = b;
     }
   }
+  // CTR streams whose counter carries through several bytes within a few blocks (seeds whose SHA-1 ends in 0xFF.. bytes): the counter
+  // must keep stepping by one, no keystream block may repeat, and the file must be the specified one
+  for (auto &sd : g_carry_seeds) { int T = 1; bytes key = rng.key16(), seed(sd.begin(), sd.end()), plain(16 * 40, 0);
+    EncRes e = real_enc(T, 2, 0, key, seed, plain); size_t body = 68; std::map<std::string, size_t> seen;
+    for (size_t b = 0; b < 40; b++) { std::string ks((const char *)&e.file[body + 16 * b], 16); if (seen.count(ks)) { emitA(suite, "C18", "keystream block reused (blocks " + S((long)seen[ks]) + " and " + S((long)b) + ") in a CTR stream whose counter carries; seed=" + sd + " key=" + hex(key)); break; } seen[ks] = b; }
+    emitO(suite, "senc 1 " + S(BSZ) + " 2 0 " + hex(key) + " " + hex(seed) + " " + hex(plain), hex(e.file)); }
   for (int c = 1; c <= 4; c++) for (int T : {2, 3, 4, 11, 15, 16}) {
     if (T > 4 && c != 1 + T % 4 && !tier_thorough()) continue;
     bytes key = rng.buf(16), seed = rng.nzbuf(20);
@@ -185,10 +193,40 @@ static void tamper_check(const char *suite, Tcount &tc, int T, const bytes &key,
   if (gapOrEight && mod[8] != orig[8] && mod[8] <= 4) { tc.k1++; if (tc.k1 <= 3) emitK(suite, "K1", "cipher-mode byte changed " + S(orig[8]) + "->" + S(mod[8]) + " accepted with different plaintext (byte 8 is outside the MAC) key=" + hex(key) + " file=" + hex(mod)); return; }
   emitA(suite, "C05", "modified file (" + what + ") decrypts successfully to different plaintext key=" + hex(key) + " orig=" + hex(orig) + " mod=" + hex(mod) + " out=" + hex(d.out));
 }
+// files whose ciphertext has a sentinel value (0xFF = (char)EOF, 0x00, '\n', 0x1A) exactly at a chunk boundary or at a refill boundary of the
+// hash buffer: stream modes let the harness choose the ciphertext byte (P' = P xor C xor sentinel); they must round-trip, and any change
+// behind the boundary must be rejected
+static void sentinel_cases(Rng &rng, const char *suite, Tcount &tc) {
+  size_t chunk = 16 * (size_t)BSZ; long made = 0;
+  for (int c : {2, 4}) for (int T : {1, 2}) {
+    int h = (c + T) % 3; size_t body = 48 + 20 * (size_t)T;
+    bytes key = rng.key16(), seed = rng.nzbuf(9), plain = rng.buf(chunk * 3 + 64 * (size_t)HB * 2 + 21);
+    if (plain.size() > 400) plain.resize(400);
+    EncRes e0 = real_enc(T, c, h, key, seed, plain);
+    std::vector<size_t> bounds;
+    for (size_t k = 1; 48 + 64 * (size_t)HB * k < e0.file.size() - 1; k++) bounds.push_back(48 + 64 * (size_t)HB * k);
+    for (size_t j = 1; body + chunk * j < e0.file.size() - 1; j++) bounds.push_back(body + chunk * j);
+    for (size_t b : bounds) for (int sent : {0xFF, 0x00, 0x0A, 0x1A}) {
+      if (b < body || b - body >= plain.size()) continue;
+      bytes p2 = plain; p2[b - body] ^= (unsigned char)(e0.file[b] ^ sent);
+      EncRes e = real_enc(T, c, h, key, seed, p2);
+      if (e.file.size() <= b || e.file[b] != (unsigned char)sent) continue;      // (the first chunk of a stream: always reachable in CTR/OFB)
+      made++;
+      DecRes d = real_dec(T, key, e.file), v = real_ver(T, key, e.file);
+      if (!d.ok || !v.ok || d.out != p2) emitA(suite, "C01", "a file whose ciphertext byte at boundary offset " + S((long)b) + " is " + S(sent) + " does not round-trip T=" + S(T) + " c=" + S(c) + " key=" + hex(key) + " seed=" + hex(seed) + " plain=" + hex(p2));
+      for (size_t at : {b + 1, b + 2, e.file.size() - 1}) if (at < e.file.size()) { bytes m = e.file; m[at] ^= 0x01; tamper_check(suite, tc, T, key, e.file, p2, m, "bit flip behind a boundary byte " + S(sent) + " at " + S((long)b), false); }
+      for (size_t l : {b, b + 1, e.file.size() - 1, e.file.size() - 16}) if (l < e.file.size()) { bytes m(e.file.begin(), e.file.begin() + l); tamper_check(suite, tc, T, key, e.file, p2, m, "truncation behind a boundary byte " + S(sent) + " at " + S((long)b), false); }
+      { bytes m = e.file; m.push_back(0x42); tamper_check(suite, tc, T, key, e.file, p2, m, "extension of a file with boundary byte " + S(sent), false); }
+    }
+  }
+  emitI(suite, "sentinel_files", S(made));
+}
+
 static void suite_tamper(Rng &rng) {
   const char *suite = "tamper";
   Tcount tc;
   size_t chunk = 16 * (size_t)BSZ;
+  sentinel_cases(rng, suite, tc);
   int nfiles = tier_thorough() ? 45 : 9;
   for (int fi = 0; fi < nfiles; fi++) {
     int T = (fi % 3 == 0) ? 1 : (fi % 3 == 1 ? 2 : 3), c = fi % 5, h = (fi / 2) % 3;
@@ -548,6 +586,37 @@ static void suite_iofault(Rng &rng) {
   emitI(suite, "faulty_operations", S(ops)); emitI(suite, "read_faults_fired", S(rfaults)); emitI(suite, "write_faults_fired", S(wfaults));
 }
 
+// ---------------- memory pressure (C06): when allocations fail, a wrong key must still never be ACCEPTED (an abort is tolerated here) ----------------
+#include <sys/resource.h>
+#include <malloc.h>
+static void suite_memlimit(Rng &rng) {
+  const char *suite = "memlimit"; long runs = 0, aborted = 0, rejected = 0;
+  mallopt(M_ARENA_MAX, 1); mallopt(M_MMAP_THRESHOLD, 1 << 20); mallopt(M_TRIM_THRESHOLD, 1 << 20);      // one arena (thread arenas reserve 64 MiB of address space each, which an allocation could later grow into);      // big blocks are mapped and unmapped, so that "current size + margin" really is a limit
+  for (int rep = 0; rep < (tier_thorough() ? 24 : 6); rep++) {
+    int T = 1 + rep % 2, c = rep % 5, h = rep % 3; bytes key = rng.key16(), seed = rng.nzbuf(8), plain = rng.buf(100 + rng.below(100));
+    EncRes e = real_enc(T, c, h, key, seed, plain);
+    bytes k2 = key; k2[rng.below(16)] ^= (unsigned char)(1 << rng.below(8));
+    for (int dv = 0; dv < 2; dv++) for (long margin_mb : {4L, 20L, 40L}) {
+      int pp[2]; if (pipe(pp) != 0) abort(); fflush(g_proto);
+      trace_case(suite, std::string(dv ? "decrypt" : "verify") + " with a wrong key under an address-space limit of current + " + S(margin_mb) + " MiB");
+      pid_t pid = fork();
+      if (pid == 0) { close(pp[0]);
+        malloc_trim(0);
+        long pages = 0; { FILE *f = fopen("/proc/self/statm", "r"); if (f) { if (fscanf(f, "%ld", &pages) != 1) pages = 0; fclose(f); } }
+        struct rlimit rl; rl.rlim_cur = rl.rlim_max = (rlim_t)pages * 4096 + (rlim_t)margin_mb * 1048576; setrlimit(RLIMIT_AS, &rl);
+        DecRes r = dv ? real_dec(T, k2, e.file) : real_ver(T, k2, e.file);
+        unsigned char b[2] = {(unsigned char)r.ok, (unsigned char)(r.out.empty() ? 0 : 1)}; ssize_t w = write(pp[1], b, 2); (void)w; _exit(0); }
+      close(pp[1]); unsigned char b[2] = {0, 0}; ssize_t n = read(pp[0], b, 2); close(pp[0]); int st; waitpid(pid, &st, 0); runs++;
+      if (n == 2 && WIFEXITED(st) && WEXITSTATUS(st) == 0) {
+        if (b[0]) emitA(suite, "C06", std::string(dv ? "decryption" : "verification") + " ACCEPTED a wrong key when memory was short (address-space limit current + " + S(margin_mb) + " MiB) key=" + hex(key) + " wrong=" + hex(k2) + " file=" + hex(e.file));
+        else rejected++;
+        if (b[1]) emitA(suite, "C06", "decryption with a wrong key wrote output when memory was short key=" + hex(key) + " wrong=" + hex(k2));
+      } else aborted++;
+    }
+  }
+  emitI(suite, "runs_under_memory_limit", S(runs)); emitI(suite, "aborted_on_allocation_failure", S(aborted)); emitI(suite, "rejected", S(rejected));
+}
+
 int main(int argc, char **argv) {
   { char buf[4096]; ssize_t n = readlink("/proc/self/exe", buf, sizeof buf - 1); g_self_exe = n > 0 ? std::string(buf, n) : std::string(argv[0]); }
   if (argc > 1 && std::string(argv[1]) == "freshop") {      // one operation read from stdin, result written to fd 3, in a new process image
@@ -574,6 +643,7 @@ int main(int argc, char **argv) {
   if (which == "crash" || which == "all") suite_crash(rng);
   if (which == "proc" || which == "all") suite_proc(rng);
   if (which == "iofault") suite_iofault(rng);
+  if (which == "memlimit") suite_memlimit(rng);
   fflush(g_proto);
   return 0;
 }
